@@ -29,4 +29,19 @@ with open("/verif/seeded/RESULTS.md", "w") as f:
     f.write("| id | property | change | needs | confirmed | checks |\n|---|---|---|---|---|---|\n")
     for r in rows:
         f.write("| %s | %s | %s | %s | %s | %s |\n" % r)
-print(len(rows), "rows")
+ref = []
+for d in sorted(glob.glob("/verif/seeded/refactor_*")):
+    mp = os.path.join(d, "meta.json")
+    if not os.path.exists(mp):
+        continue
+    m = json.load(open(mp))
+    ref.append((os.path.basename(d), (m.get("summary") or "").replace("|", "/").replace("\n", " ")[:300],
+                "tests %s; equivalence script exit %s" % ("pass" if "passed" in m.get("confirmed", {}).get("tests", "") else "?",
+                                                         m.get("confirmed", {}).get("equivalence_script_exit")),
+                "; ".join("%s quick: exit %s" % (c, rc) for c, rc in sorted(m.get("checks_quick", {}).items()))))
+with open("/verif/seeded/RESULTS.md", "a") as f:
+    f.write("\n\n# Behaviour-preserving refactorings: every check must stay quiet\n\n")
+    f.write("| id | refactoring | confirmed | checks (final run) |\n|---|---|---|---|\n")
+    for r in ref:
+        f.write("| %s | %s | %s | %s |\n" % r)
+print(len(rows), "rows", len(ref), "refactorings")
